@@ -1,6 +1,7 @@
 """C06 - helpers emit exactly the documented command text. Specs: EBBCmds (the command-text table), Cmds (enumerator + invariants)."""
 import logging
 import os
+import re
 
 import ebbfake
 import vlib
@@ -46,8 +47,17 @@ def legacy_call(em, es, h, a, port):
         "query_button": lambda: em.QueryPRGButton(port),
         "query_steps": lambda: em.query_steps(port),
         "servo_timeout": lambda: em.servo_timeout(port, A[0], A[1]),
+        "query_motors_pins": lambda: em.query_enable_motors(port),
+        "query_voltage": lambda: em.queryVoltage(port),
+        "query_nickname": lambda: es.query_nickname(port),
+        "write_nickname": lambda: es.write_nickname(port, "Lab"),
+        "reboot": lambda: es.reboot(port),
+        "bootload": lambda: es.bootload(port),
     }
     return table.get(h)
+
+
+GATED = {"servo_timeout", "query_voltage", "query_nickname", "write_nickname", "reboot"}      # legacy helpers that ask for the version first
 
 
 def ebb3_call(obj, h, a):
@@ -81,11 +91,29 @@ def ebb3_call(obj, h, a):
         "query_current": obj.query_current,
         "motors_query_enabled": obj.motors_query_enabled,
         "query_nickname": obj.query_nickname,
+        "write_nickname": lambda: obj.write_nickname("Lab"),
         "reboot": obj.reboot,
         "bootload": obj.bootload,
         "query_statusbyte": obj.query_statusbyte,
     }
     return table.get(h)
+
+
+FREE = ("timed_pause", "motors_enable")        # helpers whose documented text leaves a choice: judged by the statement when they differ from the table
+
+
+def free_event(h, a, w):
+    """lex an observed command list of a FREE helper for CmdsTrace"""
+    if h == "timed_pause":
+        ds, wf = [], True
+        for line in w:
+            m = re.fullmatch(r"SM,(\d{1,9}),0,0\r", line)
+            if m:
+                ds.append(int(m.group(1)))
+            else:
+                wf = False
+        return {"h": h, "n": a[0], "ds": ds, "wf": wf}
+    return {"h": h, "r1": a[0], "r2": a[1], "lines": [x[:-1] if x.endswith("\r") and not x.endswith("\r\r") else "<bad framing>" for x in w]}
 
 
 def observe(fn, port):
@@ -102,6 +130,7 @@ def run(ctx):
     ctx.run_tlc("e1", "CmdsMC", "Cmds_%s.cfg" % ctx.tier, dump=dump)
     n = 0
     per = {}
+    pending = []
     for st in vlib.read_dump(dump + ".dump"):
         n += 1
         h, a, lines = st["h"], list(st["a"]), list(st["lines"])
@@ -115,17 +144,19 @@ def run(ctx):
         if fn is not None:
             ctx.count(("legacy", h, tuple(a)))
             w, exc = observe(fn, port)
-            if h == "servo_timeout" and w[:1] == ["V\r"]:
+            if h in GATED and w[:1] == ["V\r"]:
                 w = w[1:]
             got["legacy"] = w
             if exc:
                 ctx.violation("text.legacy_raises", dict(case, layer="legacy"), want, exc)
+            elif w != want and h in FREE:
+                pending.append((free_event(h, a, w), dict(case, layer="legacy"), want, w))
             elif w != want:
                 ctx.violation("text.legacy_" + h, dict(case, layer="legacy"), want, w)
             else:
                 # the same request again through the same port: the same text again (nothing remembered from the first call)
                 _w2, exc2 = observe(fn, port)
-                again = [x for x in port.writes if not (h == "servo_timeout" and x == "V\r")]
+                again = [x for x in port.writes if not (h in GATED and x == "V\r")]
                 if exc2 or again != want + want:
                     ctx.violation("text.repeated_request_same_text", dict(case, layer="legacy", repeat=2), want + want, exc2 or again)
             # with no port nothing is sent (and nothing raised)
@@ -145,6 +176,8 @@ def run(ctx):
             got["ebb3"] = w3
             if exc3:
                 ctx.violation("text.ebb3_raises", dict(case, layer="ebb3"), want, exc3)
+            elif w3 != want and h in FREE:
+                pending.append((free_event(h, a, w3), dict(case, layer="ebb3"), want, w3))
             elif w3 != want:
                 ctx.violation("text.ebb3_" + h, dict(case, layer="ebb3"), want, w3)
             elif h not in ("reboot", "bootload"):
@@ -168,8 +201,15 @@ def run(ctx):
         if n % 397 == 1:
             ctx.sample({"mode": "G", "helper": h, "args": case["args"], "documented_lines": lines, "observed": got})
     os.remove(dump + ".dump")
+    if pending:
+        vs, _st = vlib.judge_events(os.path.join(ctx.workdir, "free"), "CmdsTrace", "CmdsTrace.cfg", [p[0] for p in pending])
+        for (ev, case, want, w), v in zip(pending, vs):
+            if v == "ok":
+                ctx.note_drift("command list differs from the table's rendering but satisfies the statement (%s)" % ev["h"], case)
+            else:
+                ctx.violation(v, case, want, w)
     ctx.traces += n
-    ctx.stage("G", kind="spec->code", vectors=n, per_helper=per)
+    ctx.stage("G", kind="spec->code", vectors=n, per_helper=per, free_text_results_judged_by_statement=len(pending))
     ctx.exhaustive = True
     ctx.trusted += ["TLC 1.8", "the scripted ports in harness/ebbfake.py (all-OK legacy board, echoing EBB3 board)", "vlib parser"]
     ctx.assumptions += ["arguments are integers (None = not supplied); the legacy servo_timeout gate's preceding 'V' query is not part of the compared text",
@@ -196,7 +236,7 @@ def replay(rec):
         rp = ebbfake.LegacyOKPort()
         for _k in range(reps):
             w, exc = observe(legacy_call(em, es, h, a, port), port if port is not None else rp)
-        w = [x for x in w if not (h == "servo_timeout" and x == "V\r")]
+        w = [x for x in w if not (h in GATED and x == "V\r")]
     else:
         port3 = ebbfake.EchoPort((a[2], a[3]) if h == "motors_enable" else (0, 0), delay=c.get("delay", 0))
         obj = e3m.EBBMotionWrap()
